@@ -16,6 +16,7 @@ package genql
 import (
 	"crypto/sha256"
 	"encoding/hex"
+	"errors"
 	"fmt"
 	"maps"
 	"math"
@@ -414,7 +415,7 @@ func BuildLimit(query *Query, limit *sqlparser.Limit) error {
 		if err != nil {
 			return err
 		}
-		offsetNumeric, err := strconv.Atoi(offsetLiteral)
+		offsetNumeric, err := rowCount(offsetLiteral)
 		if err != nil {
 			return err
 		}
@@ -424,12 +425,23 @@ func BuildLimit(query *Query, limit *sqlparser.Limit) error {
 	if err != nil {
 		return err
 	}
-	limitNumeric, err := strconv.Atoi(limitLiteral)
+	limitNumeric, err := rowCount(limitLiteral)
 	if err != nil {
 		return err
 	}
 	query.limitDefinition = limitNumeric
 	return nil
+}
+
+// rowCount reads the number of a LIMIT or OFFSET. A number beyond the range
+// of an int is as good as the largest one: LIMIT m, 18446744073709551615 is
+// the MySQL idiom for "all rows from m on"
+func rowCount(literal string) (int, error) {
+	number, err := strconv.Atoi(literal)
+	if errors.Is(err, strconv.ErrRange) && number > 0 {
+		return math.MaxInt, nil
+	}
+	return number, err
 }
 
 func BuildGroup(query *Query, group *sqlparser.GroupBy) error {
